@@ -8,7 +8,8 @@ LEVEL_TEXT = ("ConfStore.tla: Get = clone, redact through the clone, render; TLC
               "loaded from YAML by conf.Load and served by the real api.API over HTTP; for every secret x every configuration "
               "endpoint (global, pathdefaults, paths list incl. pages, paths get) TLC evaluates RedactedObs on leak / shown value "
               "/ deep snapshots of the live configuration. DumpReq.tla: TLC enumerates all requests of protocol version HTTP/1.0, 1.1, "
-              "2.0, 3.0 with <= 2 header lines over 26 spellings (thorough: also 3 lines for 1.1 and 2.0); each is given to the "
+              "2.0, 3.0 with <= 2 header lines over 26 spellings plus, for each credential header and spelling, 10 value-list shapes "
+              "(1-3 values; empty or whitespace-only values before/after/between secrets) (thorough: also 3 lines for 1.1 and 2.0); each is given to the "
               "real dumpRequest with that ProtoMajor and, for 1.0/1.1 (raw TCP) and 2.0 (TLS + h2 client), sent to a real "
               "httpp.Server; TLC evaluates DumpObs on every dump")
 LEVEL_NOTE = ("secrets are marker strings (hashes: the hash body); leak = marker in the raw body or in any decoded JSON string; "
@@ -85,7 +86,7 @@ def run(ctx):
     for cfg in cfgs:
         g = vf.mc(ctx, "DumpReq", cfg, workers=4, timeout=900)
         for c in g.tagged("HDRCASE"):
-            raw[(c["proto"], tuple((h["name"], h["value"]) for h in c["headers"]))] = c
+            raw[(c["proto"], tuple((h["name"], h["value"], h["kind"]) for h in c["headers"]))] = c
     hc = [{"id": i, "proto": c["proto"], "major": c["major"], "headers": c["headers"]}
           for i, (_, c) in enumerate(sorted(raw.items()))]
     protos = sorted({c["proto"] for c in hc})
@@ -93,6 +94,10 @@ def run(ctx):
         raise vf.Infra("generator produced only %d header cases, protocols %s" % (len(hc), protos))
     ctx.set("exhaustive", True)
     if ctx.thorough:
+        x = vf.tlc(ctx, "DumpReq", "DumpReq_firstvalue.cfg", workers=2, timeout=300, allow_violation=True)
+        if x.violated != "DumpRedacts":
+            raise vf.Infra("self-test: the named regression FirstValueGuard (GuardOnFirstValue=TRUE) is no longer detected")
+        ctx.set("selftest_regression_detected_dump2", "FirstValueGuard (GuardOnFirstValue=TRUE) violates DumpRedacts in the model")
         # layer 1 describes the current code; the named regression, re-enabled, must be detected by the model
         x = vf.tlc(ctx, "DumpReq", "DumpReq_lowerlookup.cfg", workers=2, timeout=300, allow_violation=True)
         if x.violated != "DumpRedacts":
@@ -118,14 +123,18 @@ def run(ctx):
         tv2 = vf.tlc(ctx, "TraceDumpReq", "TraceDumpReq.cfg", workers=1, timeout=1200, java_opts=["-Xmx4g"])
         for bad in tv2.tagged("BAD"):
             rec = part[bad["l"] - 1]
-            key = (rec["canon"], rec["proto"], rec["via"])
+            shape = "".join(h["kind"] for h in hc[rec["case"]]["headers"] if h["canon"] == rec["canon"])
+            key = (rec["canon"], rec["proto"], rec["via"], shape)
             if key in seen:
                 continue
             seen.add(key)
-            ctx.violation({"kind": "dump", "header": rec["canon"], "proto": rec["proto"], "via": rec["via"], "spelling": rec["name"]},
-                          "the debug dump of a %s request (%s) contains the value of credential header %s (sent as '%s'), e.g. case %d"
+            ctx.violation({"kind": "dump", "header": rec["canon"], "proto": rec["proto"], "via": rec["via"], "spelling": rec["name"],
+                           "values": shape},
+                          "the debug dump of a %s request (%s) contains the value of credential header %s (sent as '%s', value %d of a field "
+                          "with values %s; s = secret, e = empty, w = whitespace only), e.g. case %d: %s"
                           % (rec["proto"], "dumpRequest called directly" if rec["via"] == "direct" else "real httpp.Server, handlerLogger",
-                             rec["canon"], rec["name"], rec["case"]))
+                             rec["canon"], rec["name"], rec["line"], shape, rec["case"],
+                             [(h["name"], h["kind"]) for h in hc[rec["case"]]["headers"]]))
     if ctx.thorough:
         clean = next(x for x in lines if x["credential"] and not x["leak"])
         vf.write_ndjson(d + "/C07_dump_trace.ndjson", [clean, dict(clean, leak=True)])
